@@ -203,9 +203,11 @@ class ScopeMetrics:
         *args: Any,
         exception: BaseException | None = None,
     ) -> None:
+        # prefix is a part of the format string only if there are any format arguments
+        prefix: str = self._logger_prefix.replace("%", "%%") if args else self._logger_prefix
         self._logger.log(
             level,
-            f"{self._logger_prefix} {message}",
+            f"{prefix} {message}",
             *args,
             exc_info=exception,
         )
